@@ -239,6 +239,9 @@ pub struct ExecResult {
     pub evals_per_instance: Vec<u64>,
     /// recorded decisions (task choices, random-stream values) when ExecParams::record was set
     pub decisions: (Vec<u32>, Vec<u64>),
+    /// (chain, seq) of every ChainStorage::flush and finalize call
+    pub flush_events: Vec<(u64, u64)>,
+    pub finalize_events: Vec<(u64, u64)>,
 }
 
 struct Shared {
@@ -542,6 +545,8 @@ pub fn execute(sc: &SchedScenario, p: ExecParams) -> ExecResult {
         trace_finalized: rc.trace_finalized,
         evals_per_instance: evals_pi.lock().unwrap().clone(),
         decisions: (tr.choices.clone(), tr.data.clone()),
+        flush_events: rc.flush_events.clone(),
+        finalize_events: rc.finalize_events.clone(),
     }
 }
 
@@ -957,6 +962,7 @@ impl SchedScenario {
                 "C11" => oracle_c11(self, &ex, base_seqs, &mut out, &tag),
                 "C12" => oracle_c12(self, &ex, base_seqs, &mut out, &tag),
                 "C13" => oracle_c13(self, &ex, base_seqs, &mut out, &tag),
+                "C15" => oracle_c15_flush(self, &ex, base_seqs, &mut out, &tag),
                 other => crate::driver::harness_error(&format!("SchedScenario: unknown property {other}")),
             }
         }
@@ -1223,6 +1229,39 @@ fn oracle_c11(sc: &SchedScenario, ex: &ExecResult, base: &[Vec<u64>], out: &mut 
     out.nontrivial = out.nontrivial || (ex.switches > 4 && (!sc.script.is_empty() || sc.ending == Ending::Abort));
 }
 
+/// C15, the sampler's part: a flush() that returned Ok must have reached the storage of every chain after
+/// the draws that chain had recorded when flush() was invoked (a chain whose storage was already finalised
+/// has written everything). What the backend then does with the call is engine C's subject.
+fn oracle_c15_flush(sc: &SchedScenario, ex: &ExecResult, base: &[Vec<u64>], out: &mut RunOutcome, tag: &str) {
+    let nc = base.len();
+    check_traces("C15", sc, ex, base, out, tag);
+    expect_clean_final("C15", sc, ex, out, tag);
+    let chains = per_chain(&ex.records, nc);
+    let mut n_flush = 0u64;
+    for e in &ex.events {
+        if e.cmd != UserCmd::Flush || e.result != CmdResult::Ok {
+            continue;
+        }
+        n_flush += 1;
+        for c in 0..nc {
+            let Some(last) = chains[c].iter().filter(|r| r.seq < e.invoke).map(|r| r.seq).max() else { continue };
+            let finalized = ex.finalize_events.iter().any(|(ch, s)| *ch == c as u64 && *s < e.ret);
+            let flushed = ex.flush_events.iter().any(|(ch, s)| *ch == c as u64 && *s > last && *s < e.ret);
+            if !finalized && !flushed {
+                let n_before = chains[c].iter().filter(|r| r.seq < e.invoke).count();
+                out.violate(
+                    "C15/sampler_flush_did_not_reach_chain".to_string(),
+                    format!("{tag}: flush() (events {}..{}) returned Ok, chain {c} had recorded {n_before} draws before it was invoked (last at event {last}), but its storage was not flushed after that draw and before flush() returned (flush calls of this chain at events {:?})", e.invoke, e.ret, ex.flush_events.iter().filter(|(ch, _)| *ch == c as u64).map(|(_, s)| *s).collect::<Vec<_>>()),
+                );
+                return;
+            }
+            out.probe("chain_flushes_checked", 1);
+        }
+    }
+    out.probe("user_flush_calls", n_flush);
+    out.nontrivial = n_flush > 0 && ex.switches > 4;
+}
+
 fn oracle_c12(sc: &SchedScenario, ex: &ExecResult, base: &[Vec<u64>], out: &mut RunOutcome, tag: &str) {
     let nc = base.len();
     check_traces("C12", sc, ex, base, out, tag);
@@ -1256,9 +1295,27 @@ fn oracle_c12(sc: &SchedScenario, ex: &ExecResult, base: &[Vec<u64>], out: &mut 
                     // is only legal before abort
                 }
                 let start_seq = e.ret;
-                let bound = 1 + resumes_before;
+                // commands issued before this pause (each is forwarded to every chain) and when the last one
+                // returned: a chain looks at one queued command per draw, so once it has recorded more draws
+                // than there were earlier commands since the last of them, none of them is outstanding for it
+                // any more ("one when no other command is outstanding")
+                let earlier: Vec<&UserEvent> = ex.events[..i].iter().filter(|x| matches!(x.cmd, UserCmd::Pause | UserCmd::Resume)).collect();
+                let last_earlier_ret = earlier.iter().map(|x| x.ret).max().unwrap_or(0);
                 for c in 0..nc {
                     let n = chains[c].iter().filter(|r| r.seq > start_seq && r.seq < end_seq).count();
+                    let since = chains[c].iter().filter(|r| r.seq > last_earlier_ret && r.seq < e.invoke).count();
+                    let drained = !earlier.is_empty() && since > earlier.len();
+                    let bound = if drained { 1 } else { 1 + resumes_before };
+                    if drained {
+                        out.probe("pause_intervals_with_drained_queue", 1);
+                    }
+                    if n > bound && drained && resumes_before > 0 {
+                        out.violate(
+                            "C12/more_than_one_draw_after_pause_with_no_command_outstanding".to_string(),
+                            format!("{tag}: chain {c} recorded {n} draws between the return of pause() (event {start_seq}) and the next resume() (event {end_seq}) although it had recorded {since} draws since the last of the {} earlier commands returned: no command was outstanding for it, bound 1", earlier.len()),
+                        );
+                        break;
+                    }
                     if n > bound {
                         out.violate(
                             if resumes_before == 0 { "C12/more_than_one_draw_after_pause".to_string() } else { "C12/too_many_draws_after_pause".to_string() },
